@@ -39,7 +39,7 @@ fn main() {
     let args: Vec<String> = std::env::args().collect();
     let seed: u64 = args[1].parse().unwrap();
     let n: usize = args[2].parse().unwrap();
-    std::panic::set_hook(Box::new(|_| {}));
+    ezpz_verif_harness::oracle::arm_crash_reporter("C14");
     let mut rng = Rng::new(seed);
     let mut out: Vec<Violation> = Vec::new();
     let (mut systems, mut runs, mut ok_runs, mut dnc_runs, mut tol_checks, mut multi, mut traced_runs) = (0, 0, 0, 0, 0, 0, 0);
@@ -63,6 +63,7 @@ fn main() {
         sys.convergence_tolerance = *rng.pick(&[1e-8, 1e-8, 1e-10, 1e-12, 1e-6, 1e-3]);
         sys.step_tolerance = *rng.pick(&[1e-12, 1e-12, 1e-15, 1e-9]);
         systems += 1;
+        ezpz_verif_harness::oracle::note_current(&sys);
         let levels = {
             let mut l: Vec<u32> = sys.reqs.iter().map(|r| r.priority()).collect();
             l.sort();
